@@ -515,4 +515,5 @@ func genC15(g *Gen) {
 	// widened operations (harness/c15lit.go)
 	genC15Literal(g)
 	genC15Words(g)
+	genC15Int64(g)
 }
